@@ -38,9 +38,16 @@ Definition model_recv (c : rcase) : robs * N * N :=
              end in
   (obs, (Nlen stream - Nlen (r_stream o))%N, N.of_nat (r_delays o)).
 
+(* What is compared is what the property speaks of: the outcome, the data, the bytes consumed.  Not compared: the number
+   of back-off sleeps (timing), and whether a connection-closed error raised for a FATAL socket error also carries the
+   bytes received so far (the pinned code attaches them only at end of stream; the property asks for them on every
+   connection-closed error, so a version that attaches the correct prefix there as well is accepted). *)
 Definition check_recv (c : rcase) : bool :=
   let '(obs, consumed, delays) := model_recv c in
-  robs_eqb obs (rc_obs c) && (consumed =? rc_consumed c)%N && (delays =? rc_delays c)%N.
+  (match obs, rc_obs c with
+   | OClosed, OClosedPartial y => ck_eqb (cksum (takeN consumed (src_bytes (rc_stream c)))) y
+   | a, b => robs_eqb a b
+   end) && (consumed =? rc_consumed c)%N.
 
 Inductive sobs := SoOk | SoClosed | SoTimeout | SoScriptEnd.
 Record scase := { sc_blocking : bool; sc_data : src; sc_script : list sock_ev;
@@ -56,7 +63,7 @@ Definition model_send (c : scase) : sobs * (N * N) * N :=
   (obs, cksum (s_peer o), N.of_nat (s_delays o)).
 Definition check_send (c : scase) : bool :=
   let '(obs, ck, delays) := model_send c in
-  sobs_eqb obs (sc_obs c) && ck_eqb ck (sc_peer c) && (delays =? sc_delays c)%N.
+  sobs_eqb obs (sc_obs c) && ck_eqb ck (sc_peer c).
 
 Inductive case := RC (c : rcase) | SC (c : scase).
 Definition check_case (c : case) : bool :=
